@@ -90,6 +90,11 @@ CFG = {
         "Swat4.C17.facts_json_ok",
         "Swat4.C17.facts_enum_ok",
         "Swat4.C17.slug_facts_ok",
+        "Swat4.C17.addExecute_abstracts",
+        "Swat4.C17.addServer_no_5xx",
+        "Swat4.C17.addServer_5xx_reachable",
+        "Swat4.C17.viewExecute_abstracts",
+        "Swat4.C17.listExecute_abstracts",
     ],
     "shards": (1, 4),
     "nontrivial": _c17_nontrivial,
@@ -144,7 +149,15 @@ CFG = {
         "strconv.ParseBool, gin's query binding of string / bool fields",
     ],
     "manifest": {
-        "text": "Lean theorems: accepted_iff_routable — addr.New∘NewPublicAddr accepts four bytes and a port iff the address is in none of "
+        "text": "Lean theorems: addExecute_abstracts / addServer_no_5xx / viewExecute_abstracts / listExecute_abstracts — 'never 5xx' bridged to the "
+                "use-case PROGRAMS (UC.addServer, the Prog over repository calls that can end in unableToCreate / unableToDiscover = HTTP 500): on a healthy, "
+                "well-keyed store a fault-free run of addserver.Execute gives exactly the status, body and store effect the table function Rest.addExecute "
+                "computes (one non-expiring discovery probe queued, one row written with port_retry, or nothing), hence never a 500; a 500 under any fault "
+                "placement implies a fault; addServer_5xx_reachable — what does reach the 500 branch: one storage error at ANY of its repository calls, and, "
+                "WITHOUT any fault, two simultaneous submissions of the same new address (second Add -> ErrServerExists -> ErrUnableToCreateServer) or a cleaner "
+                "removing the record between the Get and the marking Update (ErrUnableToDiscoverServer): 'never 5xx' is about one use case run alone on a working "
+                "Redis; getserver / listservers likewise (a storage error on view is the unmapped ErrUnableToObtainServer = empty 200; on list it is the 500 of "
+                "servers_list.go:49-53). accepted_iff_routable — addr.New∘NewPublicAddr accepts four bytes and a port iff the address is in none of "
                 "10/8, 172.16/12, 192.168/16, 127/8, 169.254/16, 224/4, 0.0.0.0, 255.255.255.255 (ranges written from the RFCs, proved "
                 "equal to Go's mask tests over all 2^32 addresses by byte reasoning) and the port is in 1..65535; add_table / view_table — "
                 "the handlers' status is the row of the statement's table, one of 400/202/410/200 resp. 400/404/204/200, below 500, a 400 "
